@@ -43,6 +43,7 @@ import (
 	"github.com/plgd-dev/go-coap/v3/message"
 	"github.com/plgd-dev/go-coap/v3/message/codes"
 	"github.com/plgd-dev/go-coap/v3/message/pool"
+	"github.com/plgd-dev/go-coap/v3/net/responsewriter"
 	"github.com/plgd-dev/go-coap/v3/options"
 	udpclient "github.com/plgd-dev/go-coap/v3/udp/client"
 	udpcoder "github.com/plgd-dev/go-coap/v3/udp/coder"
@@ -268,6 +269,9 @@ func dtlsServerLink(nstart uint32, ackTimeout time.Duration, maxRetransmit uint3
 		options.WithPeriodicRunner(func(f func(now time.Time) bool) { tickFn = f }),
 		options.WithInactivityMonitor(100000*time.Hour, func(*udpclient.Conn) {}),
 		options.WithTransmission(nstart, ackTimeout, maxRetransmit),
+		// the server's default handler answers every unmatched message with 4.04; the client-side default used at the
+		// other levels answers requests only, and none arrive here
+		options.WithHandlerFunc(func(*responsewriter.ResponseWriter[*udpclient.Conn], *pool.Message) {}),
 		options.WithOnNewConn(func(cc *udpclient.Conn) { ch <- cc }),
 	)
 	l := mem.NewListener()
